@@ -45,6 +45,8 @@ c.finish(
         "wall time, allocation (runtime.MemStats.TotalAlloc delta) and goroutine counts are MEASURED on the implementation for the generated cases, not proved; "
         "thresholds: 5 s + 50 us per input/output byte; StreamBudget(rawLen) + 4*|out| + 1 MiB*(1+stages); goroutine count back to baseline within 2 s of Close; "
         "a suspected violation is re-run three times in fresh processes before it is reported",
+        "for JBIG2 inputs with many large regions the LIVE heap is sampled during the decode (runtime.GC + HeapAlloc every 2 ms) against StreamBudget(rawLen) + 1 MiB: this ties the pool model's live <= peak <= taken invariant to the bytes really reachable, by measurement; for those cases the cumulative TotalAlloc is not judged",
+        "CCITT 2-D bodies packed by the harness from chosen codes (dense reference row, then VR/VL, pass or V0 storms, Columns up to 2^18 quick / 2^20 thorough) run under a tighter watchdog of 0.75 s + 5 us per byte (the unchanged tree needs < 0.05 s)",
         "output bounds of CCITTFax (rows <= min(MaxImageHeight, MaxImagePixels/Columns)), JBIG2 (<= StreamBudget(rawLen)) and DCT (<= MaxImageBytes) are measured on hostile headers, not proved (those decoders are not modelled)",
         "the models read each decoder with one Read loop over a buffer larger than the data; RunLength may report a clean end instead of Malformed when a consumer buffer boundary falls inside a truncated literal run (both outcomes satisfy C08); the harness compares RunLength stages only where no boundary can fall (note in coq/C08/Simple.v)",
         "zlib (FlateDecode), CCITTFax, JBIG2, DCT decoding are outside the models: for them only the oracle on the implementation applies",
